@@ -113,6 +113,20 @@ def check(tier):
         pv(["purity", vp, os.path.join(d, f"env1-{ci}.ndjson"), "1", "1", "0", "env-version"])
         pv(["purity", vp, os.path.join(d, f"env2-{ci}.ndjson"), "1", "1", "0", "env-fresh"], env={"PRQL_VERSION_OVERRIDE": "9.9.9"})
         files += [os.path.join(d, f"env2-{ci}.ndjson"), os.path.join(d, f"env1-{ci}.ndjson")]
+        if ci == 0:
+            # history across dialects: the same sources for all 12 dialects, on one thread, in two opposite orders and
+            # after failing calls; the artefact of (source, dialect) must not depend on what was compiled before it
+            KW = ["from events | select {identity, delta, offline, aes128, id, analyse, qualify, ilike, pivot, top, rowid, sysdate}",
+                  "from events | filter (delta ~= 'x') | select {identity, delta, offline}",
+                  "from t | derive {x = a // 2, r = s ~= 'a', d = (s | as date), z = f\"{a}-{b}\"} | take 3..5 | group a (take 1)"]
+            DL = ["ansi", "bigquery", "clickhouse", "duckdb", "generic", "glaredb", "mssql", "mysql", "postgres", "redshift", "sqlite", "snowflake"]
+            fwd = [{"id": f"kw{j}/{dl}", "src": src_, "dialect": dl} for dl in DL for j, src_ in enumerate(KW)]
+            for tag_, lst in (("dfwd", fwd), ("drev", list(reversed(fwd))), ("dmix", fwd[1::2] + fwd[0::2])):
+                dp = os.path.join(d, f"{tag_}.json"); json.dump(lst, open(dp, "w"))
+                op_ = os.path.join(d, f"{tag_}.ndjson")
+                pv(["purity", dp, op_, "1", "1", "0", "dialect-order:" + tag_])
+                files.append(op_)
+            inputs = inputs + fwd
         evs = []
         for f in files:
             evs += read_ndjson(f)
